@@ -53,7 +53,7 @@ pub struct Mutation {
 #[derive(Clone, Debug, Serialize, Deserialize)]
 pub enum DgSpec {
     Random { len: u16, seed: u32, valid_header: bool },
-    Structured { kind: u8, cluster_ok: bool, digest: Vec<(u8, (u8, u32), (u8, u32), (u8, u32))>, ops: Vec<OpSpec>, blocking: Blocking, mutations: Vec<Mutation> },
+    Structured { kind: u8, cluster_ok: bool, #[serde(default)] cluster_alt: Option<(u8, u16, u16)>, digest: Vec<(u8, (u8, u32), (u8, u32), (u8, u32))>, ops: Vec<OpSpec>, blocking: Blocking, mutations: Vec<Mutation> },
     /// Advance the clock by `secs` and evaluate liveness.
     Evaluate { secs: u16 },
 }
@@ -98,13 +98,23 @@ pub fn datagram_bytes(spec: &DgSpec) -> Option<Vec<u8>> {
             }
             Some(bytes)
         }
-        DgSpec::Structured { kind, cluster_ok, digest, ops, blocking, mutations } => {
+        DgSpec::Structured { kind, cluster_ok, cluster_alt, digest, ops, blocking, mutations } => {
+            // Foreign cluster ids of any shape: long, non-ASCII, multi-byte characters at
+            // arbitrary byte offsets, prefixes / extensions of the real id.
+            let foreign: String = match cluster_alt {
+                None => "other".into(),
+                Some((0, len, seed)) => expand_value(4, *len as usize % 1200, *seed as u64),
+                Some((1, len, seed)) => expand_value(3, *len as usize % 1200, *seed as u64),
+                Some((2, len, _)) => format!("c{}", "é".repeat(*len as usize % 300)),
+                Some((3, len, seed)) => format!("{}{}", "a".repeat(*len as usize % 400), expand_value(4, 40, *seed as u64)),
+                Some((_, _, _)) => String::new(),
+            };
             let d: Vec<WNodeDigest> = digest
                 .iter()
                 .map(|(id, hb, gc, max)| WNodeDigest { id: universe_id(*id as usize % UNIVERSE), heartbeat: u64_class(hb.0, hb.1), last_gc: u64_class(gc.0, gc.1), max_version: u64_class(max.0, max.1) })
                 .collect();
             let msg = match kind % 4 {
-                0 => WMsg::Syn { cluster_id: if *cluster_ok { "c".into() } else { "other".into() }, digest: d },
+                0 => WMsg::Syn { cluster_id: if *cluster_ok { "c".into() } else { foreign }, digest: d },
                 1 => WMsg::SynAck { digest: d, ops: build_ops(ops) },
                 2 => WMsg::Ack { ops: build_ops(ops) },
                 _ => WMsg::BadCluster,
@@ -310,13 +320,14 @@ fn dg_spec() -> impl Strategy<Value = DgSpec> {
         1 => (0u16..600, any::<u32>(), any::<bool>()).prop_map(|(len, seed, valid_header)| DgSpec::Random { len, seed, valid_header }),
         10 => (
             0u8..4,
-            prop_oneof![9 => Just(true), 1 => Just(false)],
+            prop_oneof![7 => Just(true), 3 => Just(false)],
+            proptest::option::weighted(0.8, (0u8..5, any::<u16>(), any::<u16>())),
             proptest::collection::vec((prop_oneof![3 => 0u8..10, 1 => 0u8..48], u64_spec(), u64_spec(), u64_spec()), 0..5),
             proptest::collection::vec(op_spec(), 0..10),
             blocking(),
             prop_oneof![3 => Just(vec![]), 1 => proptest::collection::vec(mutation(), 1..4)],
         )
-            .prop_map(|(kind, cluster_ok, digest, ops, blocking, mutations)| DgSpec::Structured { kind, cluster_ok, digest, ops, blocking, mutations }),
+            .prop_map(|(kind, cluster_ok, cluster_alt, digest, ops, blocking, mutations)| DgSpec::Structured { kind, cluster_ok, cluster_alt, digest, ops, blocking, mutations }),
         1 => (0u16..120).prop_map(|secs| DgSpec::Evaluate { secs }),
     ]
 }
@@ -337,8 +348,13 @@ pub fn case_strategy() -> impl Strategy<Value = HostileCase> {
 
 pub fn run(ctx: &Ctx, report: &mut Report) {
     report.push(run_proptest(ctx, "hostile-sequences", ctx.cases(80_000, 3_000_000), 1500, case_strategy, exec_hostile));
+    // The same garbage on the real UDP transport: the loop must survive it (shared with C19).
+    report.push(crate::srv::udp_smoke(ctx));
 }
 
 pub fn replay(ctx: &Ctx, sub: &str, case: &serde_json::Value) -> SubResult {
+    if sub == "udp-loopback-smoke" {
+        return crate::srv::udp_smoke(ctx);
+    }
     replay_case::<HostileCase, _>(ctx, sub, case, exec_hostile)
 }
